@@ -99,7 +99,6 @@ class Machine(base.Machine):
         if op["fault"] in ("rejected_mode_no", "foreign_hankel"):
             return op
         if op["fault"] == "errstate_raise":
-            op = {"fault": "foreign_hankel", "kw": {"N": 300}}
             return op
         if op["fault"] in ("callback_raise", "errstate"):
             op = {"fault": "global_rng", "k": rng.randint(0, 2 ** 31), "n": rng.randint(0, 50)}
